@@ -27,6 +27,7 @@ def ragged_slice(array, starts=None, ends=None):
                         base_ends+ends,
                         np.minimum(base_starts+ends, base_ends))
     lengths = np.maximum(ends-starts, 0)
+    starts = starts + np.zeros_like(lengths)  # one start per row (a 1-D input with starts=None has the scalar 0)
     indices, shape = RaggedView(starts, lengths).get_flat_indices()
     cls = RaggedArray if not isinstance(array, RaggedArray) else array.__class__
     return cls(array.ravel()[indices], shape)
